@@ -6,6 +6,7 @@ import (
 	"io/ioutil"
 	"math"
 	"path/filepath"
+	"strconv"
 	"time"
 
 	whisper "github.com/go-graphite/go-whisper"
@@ -27,13 +28,13 @@ func (c06) Meta() fw.Meta {
 		Rule: "case = (layout accepted by both validators, method, xff, clock, 3-6 write sessions). Session writers alternate or are fixed: whispertool only / go-whisper only / alternating (whispertool: write, Sync, Close; go-whisper: Update/UpdateMany, Close). " +
 			"Monitor A after every session: the harness' independent byte parser checks big-endian header fields == requested, offsets contiguous from 16+12k in declaration order, length == 16+12k+12*sum(N), every non-empty slot j holds a step-aligned interval I with floor_mod((I-base)/S,N)==j. " +
 			"Monitor B after every session: go-whisper and whispertool open the same bytes on one shared virtual clock; metadata (method, xff, max retention, retentions) and Fetch(from,until) over ~25 non-degenerate windows must agree (bounds, step, values bitwise, NaN==NaN). " +
-			"non-trivial = file written by both libraries with at least one stale-lap or wrapped window compared; distinct by (layout, clock, ops).",
+			"Every 8th case instead runs the real generate / copy / sum-copy binaries (incl. destinations created with nothing to copy) and applies Monitor A and the reference's Open to the files they wrote. non-trivial = file written by both libraries with at least one stale-lap or wrapped window compared; distinct by (layout, clock, ops).",
 		Assumptions: []string{
 			"degenerate windows (aligned from == aligned until after clamping) are excluded as the property's quantifier does",
 			"both libraries run on the same virtual clock (whispertool.Now / explicit now, whisper.Now); clock domain as C01 but below 2^31 + 2^30 so that go-whisper's int arithmetic and the 32-bit file fields agree",
 			"go-whisper at the version pinned by the repository's go.mod is the reference",
 		},
-		Obligations: []string{"format_checks", "nonempty_slots_checked", "metadata_compared", "windows_compared", "whispertool_written_sessions", "gowhisper_written_sessions", "alternating_files", "values_compared_non_nan", "stale_or_empty_compared", "far_jumps"},
+		Obligations: []string{"format_checks", "nonempty_slots_checked", "metadata_compared", "windows_compared", "whispertool_written_sessions", "gowhisper_written_sessions", "alternating_files", "values_compared_non_nan", "stale_or_empty_compared", "far_jumps", "cli_written_files_checked", "cli_created_with_nothing_to_copy"},
 	}
 }
 
@@ -98,8 +99,80 @@ func c06FormatCheck(c *fw.Ctx, path string, l model.Layout, ctxInfo fw.J) bool {
 	return true
 }
 
+// c06CLI: files written by the commands (generate, copy, sum-copy), in particular destinations that are
+// created although there is nothing to copy, must be classic Whisper files too.
+func c06CLI(c *fw.Ctx) {
+	r := c.Rng
+	dir := c.TmpDir()
+	l := cliLayout(r)
+	now := time.Now().Unix()
+	srcBase := filepath.Join(dir, "src")
+	empty := r.Intn(2) == 0
+	density := 0.6
+	if empty {
+		density = 0
+	}
+	for _, n := range []string{"a.wsp", "b.wsp"} {
+		if empty {
+			// really never-written sources
+			mustMkdir(filepath.Join(srcBase, "it"))
+			db, err := createFile(filepath.Join(srcBase, "it", n), l)
+			if err != nil {
+				panic(err)
+			}
+			db.Sync()
+			db.Close()
+		} else {
+			writeFixture(filepath.Join(srcBase, "it", n), l, genContent(r, l, now, density), now)
+		}
+	}
+	ret := []string{"-agg-method", model.MethodNames[l.Method], "-x-files-factor", strconv.FormatFloat(float64(l.Xff), 'g', -1, 32), "-retentions", l.RetentionString()}
+	type prod struct {
+		name string
+		args []string
+		out  string
+	}
+	prods := []prod{
+		{"generate-fill", append([]string{"generate", "-dest", filepath.Join(dir, "g1.wsp")}, ret...), filepath.Join(dir, "g1.wsp")},
+		{"generate-nofill", append([]string{"generate", "-dest", filepath.Join(dir, "g2.wsp"), "-fill=false"}, ret...), filepath.Join(dir, "g2.wsp")},
+		{"copy-to-absent", append([]string{"copy", "-src-base", filepath.Join(srcBase, "it"), "-src", "a.wsp", "-dest-base", filepath.Join(dir, "d1"), "-text-out", ""}, ret...), filepath.Join(dir, "d1", "a.wsp")},
+		{"copy-glob-to-absent", append([]string{"copy", "-src-base", filepath.Join(srcBase, "it"), "-src", "*.wsp", "-dest-base", filepath.Join(dir, "d2", "deep"), "-text-out", ""}, ret...), filepath.Join(dir, "d2", "deep", "b.wsp")},
+		{"sum-copy-to-absent", append([]string{"sum-copy", "-src-base", srcBase, "-item", "it", "-src", "*.wsp", "-dest-base", filepath.Join(dir, "d3"), "-dest", "sum.wsp", "-text-out", ""}, ret...), filepath.Join(dir, "d3", "it", "sum.wsp")},
+	}
+	for _, p := range prods {
+		res := runCLI(c, p.args...)
+		info := fw.J{"producer": p.name, "empty_sources": empty, "run": res.brief()}
+		if res.Exit != 0 || cliPanicked(res) {
+			c.Violationf("cli-producer-failed:"+p.name, info, "%s exited %d", p.name, res.Exit)
+			return
+		}
+		if !c06FormatCheck(c, p.out, l, info) {
+			return
+		}
+		gw, err := whisper.Open(p.out)
+		if err != nil {
+			c.Violationf("reference-cannot-open", info, "go-whisper cannot open the file written by %s: %v", p.name, err)
+			return
+		}
+		if int(gw.AggregationMethod()) != l.Method || math.Float32bits(gw.XFilesFactor()) != math.Float32bits(l.Xff) || gw.MaxRetention() != int(l.MaxRet()) || len(gw.Retentions()) != len(l.Archs) {
+			c.Violationf("metadata-differs", info, "go-whisper reads other metadata from the file written by %s", p.name)
+		}
+		gw.Close()
+		c.Count("cli_written_files_checked", 1)
+		if empty && p.name != "generate-fill" {
+			c.Count("cli_created_with_nothing_to_copy", 1)
+		}
+	}
+	c.Nontrivial("cli", l.String(), empty)
+	c.Sample(fw.J{"kind": "cli-written files", "layout": l.String(), "empty_sources": empty})
+}
+
 func (c06) Run(c *fw.Ctx) {
 	r := c.Rng
+	if c.Index%8 == 6 {
+		c06CLI(c)
+		return
+	}
 	l := genLayout(r, layoutOpts{maxPoints0: 500})
 	now := genClock(r, l)
 	if now > 1<<31+1<<30 {
